@@ -167,6 +167,32 @@ CHECKS['C02'] = dict(
     design='5/C02',
 )
 
+CHECKS['C03'] = dict(
+    level='exploration',
+    text=("Bounded-exhaustive over a module grammar: import graphs (single, chain, diamond, repeated import, wide) x axiom "
+          "tuples from a 12-pattern pool (shared/distinct symbols, notation, binders, constrained metavariables) x claim "
+          "modes x axiom sharing between modules, each serialised by the real ProofExp.serialize with both settings; the "
+          "three files are decoded by the reference machine and its publish journal compared with the declaration under one "
+          "injective symbol map: axioms exactly the import closure in order, claims proved in declaration order, same "
+          "journal with optimisation on/off, checker accepts. Capacity cases (symbols, variable ids, memory slots at "
+          "255/256/257+) must either encode unambiguously or be refused."),
+    note='Trusted: journal decoding by mc/refmachine.py (bound to the checker by C05).',
+    technique='bounded-exhaustive enumeration of module declarations; decoded publish journal compared with the declaration',
+    design='5/C03',
+)
+CHECKS['C08'] = dict(
+    level='model_checking',
+    text=("Product exploration: proof expressions (DSL primitives, axiom loads, library lemmas at pool arguments, one level of "
+          "modus_ponens / instantiate / dynamic_inst / exists_generalization in every key order, and degenerate shapes: empty "
+          "map, repeated instantiation, one thunk used twice) x 15 interpreter stacks (Basic, Stateful, Counting, Serializing, "
+          "PrettyPrinting, Memoizing and InstantiationOptimizer over them, two-deep stacks; analyser suggestions and "
+          "aggressive memoisation). Per expression the outcomes over all stacks must be a singleton (all raise, or all return "
+          "the advertised conclusion) and the checker's verdict on the bytes written under every serialising stack must agree."),
+    note='Known finding: MemoizingInterpreter stacked over another transformer exhausts the 256 memory slots.',
+    technique='exhaustive product of bounded expression set x interpreter stacks with outcome-agreement oracle',
+    design='5/C08',
+)
+
 NOT_YET = {
 }
 
